@@ -49,7 +49,7 @@ impl Prop for C12 {
         for (lm, ep) in [(false, &off), (true, &on)] {
             for b in ep.balance_cr.values() {
                 let car = Car::from_lib(b.carrier);
-                let t = tol(sc.s_energy(Some(car)), n);
+                let t = tol(sc.s_energy(Some(car)), sc.n);
                 ensure!(b.f_match.len() == n, "f_match", "{}: f_match has {} steps", car.name(), b.f_match.len());
                 for i in 0..n {
                     let f = b.f_match[i] as f64;
@@ -101,7 +101,7 @@ impl Prop for C12 {
                 Some(b) => b,
                 None => fail!("carriers", "{} has no balance with load matching", car.name()),
             };
-            let t = tol(sc.s_energy(Some(car)), n);
+            let t = tol(sc.s_energy(Some(car)), sc.n);
             for i in 0..n {
                 ensure!(bon.prod.epus_t[i] as f64 <= boff.prod.epus_t[i] as f64 + t, "lm_lowers_self_use", "{}[{i}]: produced-and-used {} with load matching > {} without", car.name(), bon.prod.epus_t[i], boff.prod.epus_t[i]);
                 ensure!(bon.del.grid_t[i] as f64 >= boff.del.grid_t[i] as f64 - t, "lm_raises_delivery", "{}[{i}]: grid delivery {} with load matching < {} without", car.name(), bon.del.grid_t[i], boff.del.grid_t[i]);
@@ -142,6 +142,69 @@ impl Prop for C12 {
                 ctx.nontrivial = true;
             }
         }
+        // load matching as a user gets it: the program's --load_matching flag must give the factors of the library
+        // (a sample of the cases, chosen by a pure function of the case: every building whose only production is
+        // cogenerated electricity, and one in forty of the others)
+        let only_chp = on.balance_cr.values().all(|b| b.prod.by_src_an.iter().all(|(s, v)| *v == 0.0 || *s == Src::EL_COGEN.to_lib())) && on.balance_cr.values().any(|b| b.prod.an > 0.0);
+        let pick = c.b.lines.iter().map(|l| l.vals.iter().map(|v| v.to_bits() as u64).sum::<u64>()).sum::<u64>() % 40 == 0;
+        if c.b.n <= 96 && c.area > 1e-3 && (only_chp || pick) {
+            check_cli(c, &on, ctx)?;
+            ctx.label(if only_chp { "cli_run_only_chp" } else { "cli_run" });
+        }
         Ok(())
     }
+}
+
+/// cteepbd --load_matching --json: f_match, used production and grid delivery per step as the library gives them
+fn check_cli(c: &BFCase, on: &cteepbd::types::EnergyPerformance, _ctx: &mut Ctx) -> CheckResult {
+    use crate::clidrv::*;
+    use crate::fgen::FactorCase;
+    let mut args: Vec<String> = vec!["-c".into(), "comp.csv".into(), format!("--kexp={}", crate::gen::f32_text(c.k)), format!("--arearef={}", crate::gen::f32_text(c.area)), "--load_matching".into(), "--json".into(), "out.json".into()];
+    let mut files = vec![("comp.csv".to_string(), c.b.render().into_bytes())];
+    let (red1, red2) = match &c.f {
+        FactorCase::Regulatory { loc, red1, red2 } => {
+            args.push("-l".into());
+            args.push(loc.clone());
+            (red1, red2)
+        }
+        FactorCase::UserFile { red1, red2, .. } => {
+            args.push("-f".into());
+            args.push("fact.csv".into());
+            files.push(("fact.csv".to_string(), c.f.file_text().unwrap().into_bytes()));
+            (red1, red2)
+        }
+    };
+    for (flag, r) in [("--red1", red1), ("--red2", red2)] {
+        if let Some(t) = r {
+            args.push(flag.into());
+            for x in t {
+                args.push(crate::gen::f32_text(*x));
+            }
+        }
+    }
+    let run = run_cli_checked(&args, &files).map_err(|x| Failure::new("harness", x))?;
+    let res = (|| -> CheckResult {
+        ensure!(!run.timed_out && run.signal.is_none() && !run.stderr.contains("panicked at"), "cli_crash", "{}", run.summary());
+        ensure!(run.status == Some(0), "cli_status", "cteepbd --load_matching failed on a valid building: {}", run.summary());
+        let js = run.file("out.json").ok_or_else(|| Failure::new("cli_files", "out.json was not written"))?;
+        let epj: cteepbd::types::EnergyPerformance = serde_json::from_str(&js).map_err(|x| Failure::new("cli_files", format!("the JSON file cannot be read back into a result: {}", x)))?;
+        for (k, b) in &on.balance_cr {
+            let car = Car::from_lib(*k);
+            let j = match epj.balance_cr.get(k) {
+                Some(j) => j,
+                None => fail!("cli_load_matching", "{} has no balance in the program's result", car.name()),
+            };
+            ensure!(j.f_match.len() == b.f_match.len(), "cli_load_matching", "{}: f_match has {} steps in the program's result", car.name(), j.f_match.len());
+            let s: f64 = (b.used.epus_an + b.used.nepus_an + b.used.cgnus_an + b.prod.an) as f64;
+            let t = tol(s, b.f_match.len() + c.b.lines.len()) + 0.002;
+            for i in 0..b.f_match.len() {
+                ensure!((j.f_match[i] - b.f_match[i]).abs() <= 1.1e-3, "cli_load_matching", "{}[{i}]: the program run with --load_matching reports f_match = {} where the library gives {}", car.name(), j.f_match[i], b.f_match[i]);
+                ensure!(((j.prod.epus_t[i] - b.prod.epus_t[i]).abs() as f64) <= t, "cli_load_matching", "{}[{i}]: produced-and-used energy {} from the program run with --load_matching, {} from the library", car.name(), j.prod.epus_t[i], b.prod.epus_t[i]);
+                ensure!(((j.del.grid_t[i] - b.del.grid_t[i]).abs() as f64) <= t, "cli_load_matching", "{}[{i}]: grid delivery {} from the program run with --load_matching, {} from the library", car.name(), j.del.grid_t[i], b.del.grid_t[i]);
+            }
+        }
+        Ok(())
+    })();
+    run.cleanup();
+    res
 }
